@@ -61,7 +61,8 @@ def backfill():
 def ingest(wt, pid, name):
     d = os.path.join(SEEDED, name)
     os.makedirs(d, exist_ok=True)
-    rc, diff = sh(["git", "-C", wt, "diff", "--", "src"])
+    sh(["git", "-C", wt, "add", "-A", "--", "src"])
+    rc, diff = sh(["git", "-C", wt, "diff", "--cached", "--", "src"])
     if not diff.strip():
         print("no source change in", wt)
         return 1
@@ -161,7 +162,9 @@ def ingest_refactor(wt, pid, name):
     """a behaviour-preserving refactoring written by an independent sub-agent: store it, confirm that the suite passes with it"""
     d = os.path.join(REFACTORS, name)
     os.makedirs(d, exist_ok=True)
-    rc, diff = sh(["git", "-C", wt, "diff", "--", "src"])
+    # new files (a private module added by the refactoring) are part of the change: stage src/ in the worktree's own index first
+    sh(["git", "-C", wt, "add", "-A", "--", "src"])
+    rc, diff = sh(["git", "-C", wt, "diff", "--cached", "--", "src"])
     if not diff.strip():
         print("no source change in", wt)
         return 1
